@@ -7,12 +7,15 @@ NONE = "__none__"
 SHIFT = 1000
 
 
-def _mk_shape(idx, d, token):
+def _mk_shape(idx, d, token, empty=False):
     """A shape whose every coordinate equals `token`; the class rotates with the object id so that
-    every structure-carrying class takes part (sparse adjacency, trilist, label masks)."""
+    every structure-carrying class takes part (sparse adjacency, trilist, label masks).
+    empty: a point cloud of ZERO points of dimension d - a legal group that still has a dimensionality"""
     import menpo.shape as ms
     from collections import OrderedDict
 
+    if empty:
+        return ms.PointCloud(np.zeros((0, d)))
     P = np.full((4, d), float(token))
     k = idx % 5
     if k == 0:
@@ -61,7 +64,7 @@ def _fn(x):
 
 
 class World:
-    def __init__(self, owner_kind):
+    def __init__(self, owner_kind, empties=False):
         from menpo.image import Image
         from menpo.landmark import LandmarkManager
         from menpo.shape import PointCloud
@@ -69,6 +72,7 @@ class World:
         self.owners = {1: Image(np.zeros((1, 5, 5))) if owner_kind == 0 else PointCloud(np.zeros((3, 2)))}
         self.mgrs = {1: LandmarkManager(), 2: self.owners[1].landmarks}
         self.objs = {}
+        self.empties = empties   # objects with an odd id are created as zero-point clouds
         self.digest = {}  # base token -> structure digest of the object(s) carrying it
 
     # the specification's group name "b" is played by the empty string: a legal (if unusual) name that is NOT the None key
@@ -122,7 +126,7 @@ class World:
         objs = _fn(ev["objs"])
         if op == "new":
             tok = objs[ev["res"]]
-            s = _mk_shape(ev["res"], a[0], tok)
+            s = _mk_shape(ev["res"], a[0], tok, empty=self.empties and ev["res"] % 2 == 1)
             self.objs[ev["res"]] = s
             self.digest[tok] = struct_digest(s)
         elif op == "mutate":
@@ -179,8 +183,8 @@ class World:
         return None
 
 
-def replay(hist, owner_kind=0):
-    w = World(owner_kind)
+def replay(hist, owner_kind=0, empties=False):
+    w = World(owner_kind, empties)
     for k, ev in enumerate(hist):
         try:
             bad = w.step(ev)
